@@ -489,6 +489,17 @@ fn check_full_expr(env: &Env, e: &Expr, in_condition: bool, ex: &Excl) -> Option
             {
                 hit = Some("nested_assign_to_16bit");
             }
+            Expr::Assign(Some(BinOp::Shl | BinOp::Shr), LValue::Var(n), _)
+                if ex.has("rmw_shift16_splitport")
+                    && env.locals.get(n).is_none()
+                    && env
+                        .globals
+                        .get(n.as_str())
+                        .map(|g| g.ty.bits() == 16 && matches!(g.mem, MemQual::Superchip | MemQual::Bank(_)))
+                        .unwrap_or(false) =>
+            {
+                hit = Some("rmw_shift16_splitport");
+            }
             Expr::Assign(_, lv, r) if ex.has("bnot16") && lv_bits(env, lv) == 16 && contains_bnot(r) => {
                 hit = Some("bnot16");
             }
